@@ -234,20 +234,22 @@ def layout(u, rep, word_dims, timeout):
         rep.obligation(nm, fn, 'post', r_)
         if r_['result'] == 'sat': rep.violation(nm, fn, 'result layout differs from (word dims..., samples)', dict(kind='layout', dims=list(word_dims)), None, *native(dict(kind='layout', dims=list(word_dims))))
 
-def update_reshape(u, rep, word_dims, timeout):
-    """update() flattens the word dimensions of data row-major before _update"""
+def update_reshape(u, rep, word_dims, timeout, forder=False):
+    """update() flattens the word dimensions of data row-major (by LOGICAL index) before _update -- also when the caller's array is stored
+    in Fortran order (forder: numpy.asfortranarray of the data; the memory layout of an argument is not part of the property)"""
     fn = BASE + '::DistinguisherMixin.update'
     seen = {}
     def body():
         d = u.d.CPADistinguisher(precision='float32')
         n = core.sym_int('n', 1)
         X = H.sym_reals('X', (n, 3), 'float32'); Y = H.sym_ints('Y', (n,) + tuple(word_dims), 'uint8')
+        if forder: Y = symnp.asfortranarray(Y)
         def stub(body_, self, traces, data): seen['data'] = data; seen['traces'] = traces
         L.set_task(stubs={CPA + '::CPADistinguisherMixin._update': stub, CPA + '::CPADistinguisherMixin._initialize': (lambda b, self, traces, data: None)})
         d.update(X, Y); L.set_task()
         return n, Y, seen['data'], d
     for p, outc, exc in core.explore(body):
-        nm = 'post[update flattens word dims %s row-major]' % (word_dims,)
+        nm = 'post[update flattens word dims %s row-major%s]' % (word_dims, ', Fortran-ordered data' if forder else '')
         if exc is not None:
             if 'memory' in str(exc): continue
             rep.obligation(nm, fn, 'post', dict(result='sat', backend='exec', secs=0), sample=repr(exc)); continue
@@ -282,12 +284,13 @@ def main():
     for tdt in ('uint8', 'int16', 'float16'): units.append(('upd', 'DPA', 'uint8', tdt, 'float64'))
     units += [('upd', 'DPA', 'uint8', 'float16', 'float32'), ('upd', 'CPA', 'uint8', 'float16', 'float32')]
     for dims in ((3,), (2, 3), (2, 2, 2)): units += [('lay', dims), ('resh', dims)]
+    for dims in ((2, 3), (2, 2, 2)): units += [('resh', dims, True)]
     def work(sub, kind, *args):
         if kind == 'cpa': cpa_compute(u, sub, args[0], args[1], args[2], timeout)
         elif kind == 'dpa': dpa_compute(u, sub, args[0], timeout)
         elif kind == 'upd': update_additivity(u, sub, args[0], args[1], args[2], args[3], timeout)
         elif kind == 'lay': layout(u, sub, args[0], timeout)
-        elif kind == 'resh': update_reshape(u, sub, args[0], timeout)
+        elif kind == 'resh': update_reshape(u, sub, args[0], timeout, *args[1:])
     P.run_units(rep, work, units)
     rc, o, so, se = R.run_native('props.c03_native', ['bounded', str(seed), a.tier], timeout=1500)
     if o is None: rep.errors.append('native stand-in failed: %s %s' % (so[-400:], se[-900:]))
